@@ -171,6 +171,13 @@ def eval_opt(case: dict) -> dict:
     # quantifier precondition: IN contains every predicate without a defining rule
     if not ctx.auto_in and not (ctx.open <= ctx.in_set) and not case.get("allow_partial_in"):
         return {"verdict": "inconclusive", "reason": "declaration-misses-open-predicate"}
+    # the equivalence properties quantify over the fragment ngo targets; theory atoms, #script and classical negation
+    # are outside of it (C03, C07 and C18 still apply to such programs)
+    outside = _outside_fragment(ctx)
+    if outside:
+        want -= {"equiv", "stepwise", "c04", "c20", "c09"}
+        if not want - {"purity", "stdout"}:
+            return {"verdict": "inconclusive", "reason": f"outside-fragment:{outside}"}
     rec = ctx.run()
     viol: list[dict] = []
     info: dict = {"run": rec.brief()}
@@ -286,6 +293,20 @@ def eval_opt(case: dict) -> dict:
         res["source"] = ctx.text
         res["result"] = ctx.result_text if rec.result is not None else None
     return res
+
+
+def _outside_fragment(ctx: checks.Ctx) -> str:
+    from clingo.ast import ASTType
+
+    for stm in ctx.source:
+        if stm.ast_type in (ASTType.TheoryDefinition, ASTType.Script):
+            return "theory-or-script"
+        for node in refast.walk(stm):
+            if node.ast_type == ASTType.TheoryAtom:
+                return "theory-or-script"
+    if refast.has_classical_negation(ctx.source):
+        return "classical-negation"
+    return ""
 
 
 def _c09_arity(ctx: checks.Ctx) -> list[dict]:
